@@ -37,7 +37,7 @@ META = {
     'components_stub': ['open() and os.path.getsize seen by the file-interception module (delegating proxies)', 'S3 bucket'],
     'budgets': {'quick': {'seconds': 25}, 'thorough': {'seconds': 300}},
     'required_probes': {'thorough': ['size_at_limit', 'size_limit_plus_1', 'size_limit_minus_1', 'content_is_placeholder', 'binary_all_bytes', 'empty_file',
-                                     'limit_from_environment', 'path_by_keyword', 'path_positional', 'read_fault', 'above_limit_not_opened', 'stale_file_at_replay_path', 'explicit_zero_limit', 'more_than_1MiB_below_limit', 'two_threads_one_handler', 'path_is_a_symbolic_link', 'read_fault_in_the_middle_of_the_file', 'same_path_again_same_length_same_mtime']},
+                                     'limit_from_environment', 'path_by_keyword', 'path_positional', 'read_fault', 'above_limit_not_opened', 'stale_file_at_replay_path', 'explicit_zero_limit', 'more_than_1MiB_below_limit', 'two_threads_one_handler', 'path_is_a_symbolic_link', 'read_fault_in_the_middle_of_the_file', 'same_path_again_same_length_same_mtime', 'two_threads_restore_at_the_same_time']},
 }
 
 
@@ -217,8 +217,19 @@ def threaded_case(tape, clock, scratch, oproxy, osproxy):
                 ro = [o for o in oproxy.opens if o == ('in-1-%s.bin' % key, 'rb')]
                 run.check(not ro, 'above_limit_never_read', 'above-limit-input-read', lambda: 'file of %s (%d bytes, limit %d) was opened for reading' % (key, len(contents[key]), limit_bytes))
         rep_recorder = TapeRecorder(store.open(read_only=True))
-        Svc2, seen2 = build(rep_recorder, R.inline_thread_factory)
-        pb = R.call_outcome(lambda: rep_recorder.play(saved[-1], lambda recording: Svc2().execute()))
+        if tape.draw(2) == 1:
+            # the replayed operation restores its two files from two threads at the same time, into one directory
+            run.probe('two_threads_restore_at_the_same_time')
+            sim2 = Sim(tape, run, preempt_p=tape.choice([0.1, 0.3, 0.6]), target_prefixes=[os.path.join(REPO, 'playback', 'interception')], max_steps=60000)
+            Svc2, seen2 = build(rep_recorder, R.sim_thread_factory(sim2))
+            try:
+                pb = sim2.run_main(lambda: R.call_outcome(lambda: rep_recorder.play(saved[-1], lambda recording: Svc2().execute())))
+            except SimDeadlock as ex:
+                run.violate('replay_completes', 'deadlock', str(ex))
+                return run
+        else:
+            Svc2, seen2 = build(rep_recorder, R.inline_thread_factory)
+            pb = R.call_outcome(lambda: rep_recorder.play(saved[-1], lambda recording: Svc2().execute()))
         if pb.kind != 'return':
             run.violate('replay_completes', 'play-raised:%s' % type(pb.exc).__name__, 'play raised %r' % (pb.exc,))
             return run
